@@ -135,6 +135,11 @@ def main():
                     except Exception:
                         units.append("?")
                 how = ""
+                for mm in re.finditer(r"VIOLATION property=C16 replay=(\S+)", r.stdout):
+                    try:
+                        r.stdout += "\n" + (json.load(open(mm.group(1))).get("message") or "")
+                    except Exception:
+                        pass
                 if "DATA RACE" in r.stdout or re.search(r"Previous (read|write) at|(Read|Write) at 0x", r.stdout):
                     how = "race report"
                 if "fatal error" in r.stdout:
